@@ -17,6 +17,10 @@ import (
 
 func (m *Mon) checkStep(sc *StepCtx) {
 	si := sc.info()
+	if sc.IsRestart() {
+		m.stepRestart(sc, si)
+		return
+	}
 	m.stepC02(sc, si)
 	m.stepC03C04(sc, si)
 	m.stepC05(sc, si)
@@ -668,7 +672,13 @@ func (m *Mon) stepC06C07(sc *StepCtx, si stepInfo) {
 		if !advanced && !pausedNow {
 			continue
 		}
-		ei := sc.eligible(rc, be.Bindings)
+		named := rc
+		if t := m.ctxs[id]; t != nil && t.Providers != nil && !sameStrings(t.Providers, provHex(rc.Providers)) {
+			// the stored list no longer is what the consumer named (judged under C09 as well)
+			named.Providers = unhexAddrs(t.Providers)
+			m.fail(sc, "C06", "eligible-set", "stored-providers-differ-from-named", "context %.16s lists providers %v but its consumer named %v", id, short8(provHex(rc.Providers)), short8(t.Providers))
+		}
+		ei := sc.eligible(named, be.Bindings)
 		var issued []string
 		for _, rid := range newReqs[fmt.Sprintf("%s/%d", id, rc.BatchCounter+1)] {
 			issued = append(issued, hexs(post.Requests[rid].Provider))
@@ -923,6 +933,21 @@ func (m *Mon) stepC09(sc *StepCtx, si stepInfo) {
 			}
 		}
 	}
+	// kills accepted from inside the module's state callback count as kills
+	cbKilled := map[string]bool{}
+	for _, cb := range sc.Res.Callbacks {
+		if cb.React == "kill" && cb.ReactOK {
+			cbKilled[cb.CtxID] = true
+			if t := m.ctxs[cb.CtxID]; t != nil && !t.Killed {
+				t.Killed, t.KilledIdx = true, sc.Idx
+			}
+			b, ok := post.Contexts[cb.CtxID]
+			m.hit("C09", "kill-inside-state-callback", "")
+			if ok && b.State != types.COMPLETED {
+				m.fail(sc, "C09", "completed-is-final", "kill-in-callback-overwritten", "the owning module killed context %.16s from its state callback (accepted), but the context ends the step %s", cb.CtxID, b.State)
+			}
+		}
+	}
 	for id, a := range pre.Contexts {
 		b, ok := post.Contexts[id]
 		if !ok {
@@ -956,7 +981,7 @@ func (m *Mon) stepC09(sc *StepCtx, si stepInfo) {
 			case a.State == types.COMPLETED:
 				legal = false
 			case b.State == types.COMPLETED:
-				legal = isCtxOp && op == "kill" && target == id && sc.Res.OK
+				legal = (isCtxOp && op == "kill" && target == id && sc.Res.OK) || cbKilled[id]
 			case a.State == types.RUNNING && b.State == types.PAUSED:
 				legal = (isCtxOp && op == "pause" && target == id && sc.Res.OK) || sc.IsBlock()
 			case a.State == types.PAUSED && b.State == types.RUNNING:
@@ -1042,7 +1067,7 @@ func (m *Mon) stepC12(sc *StepCtx, si stepInfo) {
 		if cb.Kind == "state" {
 			a, b := pre.Contexts[cb.CtxID], post.Contexts[cb.CtxID]
 			m.hit("C12", "state-callback", cls)
-			if !(sc.IsBlock() && a.State == types.RUNNING && b.State == types.PAUSED) {
+			if !(sc.IsBlock() && a.State == types.RUNNING && (b.State == types.PAUSED || (cb.React == "kill" && cb.ReactOK))) {
 				m.fail(sc, "C12", "state-callback-only-on-funds-pause", cls, "state callback (%q) for context %.16s in %s, which did not pause it for lack of funds", cb.Cause, cb.CtxID, sc.Step.Desc)
 			}
 			continue
@@ -1429,12 +1454,16 @@ func (m *Mon) stepC16(sc *StepCtx, si stepInfo) {
 				}
 			}
 		}
-		finished := !rc.Repeated || (rc.RepeatedTotal > 0 && int64(rc.BatchCounter) >= rc.RepeatedTotal) || rc.State == types.COMPLETED
+		wasKilled := false
+		if t := m.ctxs[id]; t != nil {
+			wasKilled = t.Killed && t.KilledIdx < sc.Idx // killed before this block's end-of-block processing
+		}
+		finished := !rc.Repeated || (rc.RepeatedTotal > 0 && int64(rc.BatchCounter) >= rc.RepeatedTotal) || rc.State == types.COMPLETED || wasKilled
 		_, still := post.Contexts[id]
 		kind := "one-shot"
 		if rc.Repeated {
 			kind = "total-reached"
-			if rc.State == types.COMPLETED {
+			if rc.State == types.COMPLETED || wasKilled {
 				kind = "killed"
 			}
 		}
@@ -1478,4 +1507,93 @@ func sameProto(a, b protoM) bool {
 	x, e1 := a.Marshal()
 	y, e2 := b.Marshal()
 	return e1 == nil && e2 == nil && bytes.Equal(x, y)
+}
+
+// ---------------------------------------------------------------------------
+// zero-height restart step: what C19 states about the preparation, plus the parts of
+// the other properties that must survive a restart (C03 custody and C15 indexes are
+// state invariants and are judged on the post-snapshot like after any step).
+
+func (m *Mon) stepRestart(sc *StepCtx, si stepInfo) {
+	pre, post := sc.Pre, sc.Post
+	w := sc.run.w
+	m.eval("C19")
+	if !sc.Res.OK {
+		m.fail(sc, "C19", "restart-completes", sc.Res.PanicSite+":"+valClass(sc.Res.Panic), "zero-height prepare/export/import failed: %s", sc.Res.Panic)
+		return
+	}
+	m.hit("C19", "restart", fmt.Sprintf("pend%d/ctx%d/earn%v", minInt(len(pre.ActiveID), 3), minInt(len(pre.Contexts), 3), pre.sumEarned().IsPositive()))
+	// creditors are paid exactly what they are owed, nobody else's balance moves
+	want := map[string]*big.Int{}
+	add := func(a string, v *big.Int) {
+		if want[a] == nil {
+			want[a] = new(big.Int)
+		}
+		want[a].Add(want[a], v)
+	}
+	for id := range pre.ActiveID {
+		if r, ok := pre.Requests[id]; ok {
+			if rc, ok := pre.Contexts[hexs(r.RequestContextId)]; ok {
+				add(hexs(rc.Consumer), bi(coinsAmt(r.ServiceFee)))
+			}
+		}
+	}
+	for p, v := range pre.Earned {
+		add(p, bi(v))
+	}
+	esc := w.addrOf("escrow")
+	for a := range pre.Bal {
+		if a == esc {
+			continue
+		}
+		wv := want[a]
+		if wv == nil {
+			wv = new(big.Int)
+		}
+		if d := delta(pre, post, a); !eqInt(d, wv) {
+			m.fail(sc, "C19", "prep-returns-escrow", "restart", "zero-height restart: %s (%d bytes) received %s, is owed %s", w.tracked[a], len(a)/2, d, wv)
+			if a == w.addrOf("deposits") || d.Sign() < 0 {
+				m.fail(sc, "C03", "custody", "restart", "zero-height restart moved %s of account %s", d, w.tracked[a])
+			}
+		}
+	}
+	if !post.Bal[esc].IsZero() {
+		m.fail(sc, "C19", "prep-empties-escrow", "restart", "escrow holds %s after a zero-height restart", post.Bal[esc])
+	}
+	// contexts: all kept, all paused, identity and counter intact (C09, C10 rely on it)
+	m.eval("C09")
+	for id, a := range pre.Contexts {
+		b, ok := post.Contexts[id]
+		if !ok {
+			m.fail(sc, "C19", "import-complete", "context-lost@restart", "context %.16s is lost by a zero-height restart", id)
+			continue
+		}
+		m.hit("C09", "survives-restart", fmt.Sprintf("from-%s/c%d", a.State, minInt(int(a.BatchCounter), 3)))
+		if b.State != types.PAUSED || b.BatchState != types.BATCHCOMPLETED {
+			m.fail(sc, "C19", "prep-pauses-contexts", "restart", "context %.16s is %s / batch %s after a zero-height restart", id, b.State, b.BatchState)
+		}
+		if a.ServiceName != b.ServiceName || !bytes.Equal(a.Consumer, b.Consumer) || a.Input != b.Input || a.SuperMode != b.SuperMode || a.Repeated != b.Repeated || a.ModuleName != b.ModuleName {
+			m.fail(sc, "C09", "immutable-fields", "restart", "context %.16s changed an immutable field across a zero-height restart", id)
+		}
+		if b.BatchCounter < a.BatchCounter {
+			m.fail(sc, "C09", "counter-step", "decreases@restart", "context %.16s batch counter went %d -> %d across a zero-height restart", id, a.BatchCounter, b.BatchCounter)
+			m.fail(sc, "C10", "total-respected", "counter-reset@restart", "context %.16s batch counter went %d -> %d across a zero-height restart: batches already issued no longer count against its total", id, a.BatchCounter, b.BatchCounter)
+		}
+		if t := m.ctxs[id]; t != nil {
+			t.Advances, t.Killed, t.Restarted = nil, false, true
+		}
+		if b.BatchCounter > a.BatchCounter {
+			m.fail(sc, "C09", "counter-step", "increases@restart", "context %.16s batch counter went %d -> %d across a zero-height restart", id, a.BatchCounter, b.BatchCounter)
+		}
+		if !termsEqual(a, b) {
+			m.fail(sc, "C09", "terms-change-only-by-update", "restart", "context %.16s terms changed across a zero-height restart", id)
+		}
+	}
+	for id := range post.Contexts {
+		if _, ok := pre.Contexts[id]; !ok {
+			m.fail(sc, "C09", "created-only-by-call", "restart", "context %.16s appears at a zero-height restart", id)
+		}
+	}
+	m.stepC15(sc, si)
+	m.stepC20(sc, si)
 }
